@@ -150,7 +150,7 @@ for _name, _fns in [
 for _name in ['none', 'address', 'entry_console_modalign']:
     HARNESSES['k_builder_%s_end_tag' % _name] = _h('builder.rs', 'bounded', _B + '; terminator', ['Builder::build', 'EndHeaderTag::new', 'Multiboot2Header::iter'], ['C12'])
 
-# filled in after the final run on the current tree
+# final run on the current tree (2026-10-03 00:00-00:40): nothing fails (harnesses with allow= show only the code's own asserts)
 FAILING = []
 
 # Failed on the ORIGINAL text (commit 47686d4); all of these pass on the current tree.
